@@ -427,7 +427,7 @@ def run(run):
                        'only at quiescence. traces_validated = maximal schedules executed to completion on the real code. '
                        'Per maximal schedule: delivered multiset == {f(r) if p(r) else r}, no deadlock, no leaked '
                        'thread/process, no grace-period timeout needed, no row present twice in flight')
-    run.assumptions += ['virtual queues are atomic FIFOs; the feeder thread of multiprocessing.Queue is not modelled',
+    run.assumptions += ['virtual queues are atomic FIFOs; the feeder thread of multiprocessing.Queue is modelled only in the configurations marked feeder',
                         'state merging assumes threads share nothing but the queues; the line-level mode does not rely on it']
 
 
